@@ -50,7 +50,9 @@ type Engine struct {
 	axiomList          []axiom
 	defs               map[string]*SpecDef
 	replayConsts       map[string]string
+	frames             map[string][]string
 	bgGlobals          map[string]bool
+	tbsCache           map[string]types.Type
 	curReplay          string
 	replayTerms        map[string][]ReplayTerm // function -> named terms to read back from a model
 	bgT, vcT, weT, esT types.Type
@@ -67,7 +69,7 @@ func newEngine(p *Program) *Engine {
 		arrSorts: map[string]string{}, refArr: map[string]bool{}, ghostInit: map[string]string{}, strLits: map[string]int{}, funcIDs: map[string]int{},
 		funcByID: map[int]*ssa.Function{}, globals: map[string]int{}, warnings: map[string]int{}, assumptions: map[string]bool{},
 		unsupported: map[string][]string{}, loops: map[*ssa.Function]*loopInfo{}, wsCache: map[*ssa.Function][]string{},
-		wsBusy: map[*ssa.Function]bool{}, maxPaths: 5000, kindSigs: map[string]*types.Signature{}, replayTerms: map[string][]ReplayTerm{}, defs: map[string]*SpecDef{}, replayConsts: map[string]string{}, fnStats: map[string]*FnStat{}}
+		wsBusy: map[*ssa.Function]bool{}, maxPaths: 5000, kindSigs: map[string]*types.Signature{}, replayTerms: map[string][]ReplayTerm{}, defs: map[string]*SpecDef{}, replayConsts: map[string]string{}, frames: map[string][]string{}, tbsCache: map[string]types.Type{}, fnStats: map[string]*FnStat{}}
 }
 
 func (e *Engine) warn(format string, a ...interface{}) {
@@ -311,6 +313,7 @@ func (st *State) loadPtr(p *Ptr, pos token.Pos) Val {
 			nm := heapName(e, p.RootT, p.Path+c.Path)
 			e.noteRef(nm, c)
 			a := st.arr(nm, arrSort(c.Sort))
+			st.instantiateForArray(nm, p.Root)
 			t := sel(a, p.Root)
 			v.C = append(v.C, t)
 		}
@@ -386,6 +389,13 @@ func (st *State) bumpAlloc() {
 	nw := st.alloc()
 	st.assume(fmt.Sprintf("(forall ((x Int)) (! (=> (select %s x) (select %s x)) :pattern ((select %s x)) :pattern ((select %s x))))", old, nw, old, nw))
 	st.havocs[len(st.havocs)-1].alloc = nw
+	// shortcut of the monotonicity chain: everything allocated at function entry is still allocated
+	if len(st.frames) > 0 && st.frames[0].old != nil {
+		entry := st.arrIn(st.frames[0].old, allocName, "(Array Int Bool)")
+		if entry != old {
+			st.assume(fmt.Sprintf("(forall ((x Int)) (! (=> (select %s x) (select %s x)) :pattern ((select %s x))))", entry, nw, nw))
+		}
+	}
 }
 
 func compIsRef(c Comp) bool {
@@ -491,6 +501,16 @@ func (e *Engine) loopsOf(fn *ssa.Function) *loopInfo {
 
 // typeByString finds a type by its package-relative string among the types used by the current function.
 func (e *Engine) typeByString(name string) types.Type {
+	ck := e.curFn + "\x00" + name
+	if t, ok := e.tbsCache[ck]; ok {
+		return t
+	}
+	t := e.typeByString1(name)
+	e.tbsCache[ck] = t
+	return t
+}
+
+func (e *Engine) typeByString1(name string) types.Type {
 	fn := e.P.Funcs[e.curFn]
 	if fn == nil {
 		return nil
